@@ -380,12 +380,26 @@ def run(ctx):
     ctx.require(n_pairs >= 300, 'handler pairs: %d' % n_pairs)
     # ---- G5
     sets = {}
-    for fid, f in F.items():
-        if f['name'] == 'alm' and f.get('cls') in (INTERP, GEN) or (fid.startswith(INTERP + '::alm(') and '::<lambda@' in fid):
+    # the set of operations accepted with a 40-bit bus operand: a static set of AlmOp enumerators in alm(Alm, Register, Ax),
+    # in a closure of it, or in a function it calls (found by role: its element type, not its name)
+    for side in (INTERP, GEN):
+        roots = [f for fid, f in F.items() if f['name'] == 'alm' and f.get('cls') == side]
+        todo = list(roots)
+        seen_ = set()
+        depth_ = {id(f): 0 for f in roots}
+        while todo:
+            f = todo.pop()
+            if id(f) in seen_:
+                continue
+            seen_.add(id(f))
             for n in walk(f.get('body')):
-                if n.get('k') == 'var' and n.get('name', '').startswith('allowed_instruction'):
+                if n.get('k') == 'var' and n.get('static') and 'set<' in str(n.get('t', '')) and 'AlmOp' in str(n.get('t', '')):
                     vals = sorted({const_value(x) for x in walk(n.get('init')) if x.get('k') == 'ref' and x.get('dk') == 'enum'} - {None})
-                    sets[INTERP if fid.startswith(INTERP) else GEN] = (vals, f, n)
+                    sets[side] = (vals, f, n)
+                fn_ = n.get('fn') if n.get('k') in ('call', 'lambda') else None
+                if fn_ in F and depth_[id(f)] < 2 and (F[fn_].get('cls') == side or '::<lambda@' in fn_):
+                    depth_.setdefault(id(F[fn_]), depth_[id(f)] + 1)
+                    todo.append(F[fn_])
     ctx.inst(G5)
     if set(sets) != {INTERP, GEN}:
         ctx.report(G5, ('src/test_generator.cpp', GEN + '::alm', 0), 0, 'allowed_instruction', 'the guarded operation sets were not found on both sides: %s' % sorted(sets))
